@@ -42,7 +42,7 @@ theorem ends_at {app : App} (hsmall : app.instrs.length < 250) (hnf : NoFwd app)
     obtain ⟨s', ev, hc, hpost⟩ := cycle_live hsmall hR hlv hnf hok hgood hapc hnext
     cases ev with
     | running =>
-      rcases hpost with ⟨_, _, hlt⟩ | ⟨a1, c, hst, hR', hlv'⟩
+      rcases hpost with ⟨_, _, hlt⟩ | ⟨a1, c, hst, hR', hlv', _⟩
       · omega
       · exact ends_of_running hc (hcont a1 c s' (n + 1) hst hR' hlv')
     | done hk' =>
@@ -56,7 +56,7 @@ theorem ends_at {app : App} (hsmall : app.instrs.length < 250) (hnf : NoFwd app)
     obtain ⟨s', ev, hc, hpost⟩ := cycle_live hsmall hR hlv hnf hok hgood hapc hnext
     cases ev with
     | running =>
-      rcases hpost with ⟨hR', hlv', hlt⟩ | ⟨a1, c, hst, hR', hlv'⟩
+      rcases hpost with ⟨hR', hlv', hlt⟩ | ⟨a1, c, hst, hR', hlv', _⟩
       · exact ends_of_running hc (ih s' (n + 1) (by omega) hR' hlv')
       · exact ends_of_running hc (hcont a1 c s' (n + 1) hst hR' hlv')
     | done hk' =>
